@@ -46,7 +46,7 @@ CLAIM = {
             "the full theorems carry, stated in Properties/C04.v: (1) C04_join_frame needs the OUTER optic positional ('window': "
             "reads/writes exactly n bytes at a fixed offset - field lenses and Joins of them at any depth); for an outer optic that "
             "converts its value the inner focus has no position in the arena and only C04_join_frame_outer (nothing outside the outer "
-            "focus changes) is claimed; (2) C04_shapeN_nfold / C04_puts_nfold need each component 'focused' (lawful, framed by its "
+            "focus changes) is claimed - witness C04_join_frame_needs_positional; (2) C04_shapeN_nfold / C04_puts_nfold need each component 'focused' (lawful, framed by its "
             "focus, Get reading its focus only - proved for field lenses, Join chains, Join over a window, BiMap) and the foci pairwise "
             "disjoint; (3) C04_morphism_roundtrip needs every entry to have a lawful source optic and a focused target optic, and two "
             "entries to be the same iso or to have disjoint TARGET foci - no hypothesis on source foci is needed; the target hypothesis "
